@@ -819,9 +819,17 @@ func (g *c14Gen) declFunc() {
 			return
 		}
 		f.Ret = g.ptrTo(t)
-		d = fmt.Sprintf("func %s() *%s { return &%s }", name, t.Go, p)
+		// the address is taken 0-3 block scopes below the function scope (each block has a local of its own)
+		depth := g.rng.Intn(4)
+		open, close := "", ""
+		for i := 1; i <= depth; i++ {
+			open += fmt.Sprintf("{ blk%d := %d; _ = blk%d; ", i, i, i)
+			close += " }"
+		}
+		d = fmt.Sprintf("func %s() *%s { %sreturn &%s%s }", name, t.Go, open, p, close)
 		g.noteAddr(t)
 		g.feat("func:returns-address-of-global")
+		g.feat(fmt.Sprintf("func:address-of-global-from-block-depth-%d", depth))
 	case 4: // writes through a pointer parameter
 		f.Arg = g.ptrTo(t)
 		e := g.expr(t, 1)
